@@ -18,7 +18,8 @@ EXTENDS Ops, Json
 CONSTANTS Items,      \* set of keys (strings)
           MaxP,       \* priorities are 0..MaxP
           Kind,       \* "pq" | "dpq"
-          Emit        \* TRUE: print REPLAY / PROBES lines
+          Emit,       \* TRUE: print REPLAY / PROBES lines
+          Alphabet    \* "full" | "core" (keyed updates, remove, pops: for the deeper universes)
 
 VARIABLES st, hist, bad
 vars == <<st, hist, bad>>
@@ -39,15 +40,23 @@ CondPops  == [op : PopIfOps, yes : BOOLEAN, set : {<<>>} \cup {<<p>> : p \in Pri
 RetainOps == [op : {"retain"}, keep : SUBSET Items, set : {EmptyFn}]
 RetainMutOps == [op : {"retain_mut"}, keep : SUBSET Items,
                  set : {EmptyFn} \cup {OneFn(k, p) : k \in Items, p \in Prios}]
-IterMutOps == [op : {"iter_mut"}, n : 0..Cardinality(Items),
+\* (nb: elements taken from the back - only DoublePriorityQueue's IterMut is double ended)
+IterMutOps == [op : {"iter_mut"}, n : 0..Cardinality(Items), nb : IF Kind = "dpq" THEN 0..2 ELSE {0},
                set : {EmptyFn} \cup {OneFn(k, p) : k \in Items, p \in Prios}, forget : {FALSE}]
 PairsUpTo2 == {<<>>} \cup {<< <<k, p>> >> : k \in Items, p \in Prios}
               \cup {<< <<k1, p1>>, <<k2, p2>> >> : k1 \in Items, p1 \in Prios, k2 \in Items, p2 \in Prios}
 ExtendOps == [op : {"extend"}, pairs : PairsUpTo2, hint : {<<>>, <<0, -1>>}]
 MiscOps == [op : {"clear"}]
 
-StateOps == KeyedOps \cup RemoveOps \cup PlainPops \cup CondPops \cup RetainOps \cup RetainMutOps
+\* creation of a queue from a pair sequence (only as the first step of a history)
+PairsUpTo3 == PairsUpTo2 \cup {<< <<k1, p1>>, <<k2, p2>>, <<k3, p3>> >> :
+                                 k1 \in Items, p1 \in Prios, k2 \in Items, p2 \in Prios, k3 \in Items, p3 \in Prios}
+CreateOps == [op : {"from_vec", "from_iter", "de"}, pairs : PairsUpTo3, q : {0}]
+
+CoreOps == KeyedOps \cup RemoveOps \cup PlainPops
+FullOps == KeyedOps \cup RemoveOps \cup PlainPops \cup CondPops \cup RetainOps \cup RetainMutOps
             \cup IterMutOps \cup ExtendOps \cup MiscOps
+StateOps == IF Alphabet = "core" THEN CoreOps ELSE FullOps
 
 \* read-only probes (executed by the harness from every state; no model transition)
 ReadOps == [op : IF Kind = "pq" THEN {"peek"} ELSE {"peek_min", "peek_max"}]
@@ -68,7 +77,21 @@ Step(op) == LET r == Apply(Kind, st, op, Inf) IN
             /\ bad' = (IF r.out # "ok" THEN {<<op.op, r.out>>} ELSE {})
                       \cup {<<op.op, t>> : t \in Refine(op, r)}
 
-Next == \E op \in StateOps : Step(op)
+\* judgement of a creation: the same predicates the trace specification applies (StepCreate)
+CreateFails(op, r) ==
+  LET ev == [pairs |-> [i \in 1..Len(op.pairs) |-> [k |-> op.pairs[i][1], pay |-> 0, r |-> op.pairs[i][2], t |-> 0]]]
+      res == AbsOf(r.st) IN
+  IF r.out # "ok" THEN {r.out}
+  ELSE CASE op.op = "from_vec"  -> T(res = N_fromvec(ev), "bulk_contents")
+         [] op.op = "from_iter" -> T(OK_fromiter(ev, res), "bulk_contents")
+         [] op.op = "de"        -> T(OK_de(ev, res), "de_contents")
+Create(op) == LET r == Apply(Kind, Empty, op, Inf) IN
+              /\ st = Empty /\ hist = <<>>
+              /\ st' = r.st
+              /\ hist' = <<op>>
+              /\ bad' = {<<op.op, t>> : t \in CreateFails(op, r)}
+
+Next == (\E op \in StateOps : Step(op)) \/ (Alphabet = "full" /\ \E op \in CreateOps : Create(op))
 
 \* ------------------------------------------------------------------ properties
 WFInv  == WF(st)
